@@ -3,7 +3,7 @@
 From Coq Require Import List Bool ZArith NArith.
 Import ListNotations.
 From Gen Require Import SelGen.
-From Model Require Import Key Sel GFI.
+From Model Require Import Key Sel GFI GFIEdit.
 Open Scope Z_scope.
 
 (* observation of a trace: score, return value, and lookups of its choices *)
@@ -20,6 +20,36 @@ Definition tobs_ok (t : trace) (o : tobs) : bool :=
 (* build a constraint / sample choice map from entries (path, value) *)
 Definition cbuild (es : list (list ckey * val)) : chm := es.
 
+(* requests as the harness writes them (selections as terms) *)
+Inductive rterm :=
+| QUpdate (c : list (list ckey * val))
+| QRegen (s : sterm)
+| QIndex (i : Z) (r : rterm)
+| QStatic (m : list (addr * rterm))
+| QEmpty.
+Fixpoint rbuild (q : rterm) : request :=
+  match q with
+  | QUpdate c => RUpdate c
+  | QRegen s => RRegen (build s)
+  | QIndex i r => RIndex i (rbuild r)
+  | QStatic m => RStatic (map (fun p => (fst p, rbuild (snd p))) m)
+  | QEmpty => REmpty
+  end.
+
+(* observation of a backward request: is it a set of constraints, and which values it restores *)
+Record bobs := { b_flat : bool; b_look : list (list ckey * option Z) }.
+Definition bobs_ok (r : request) (o : bobs) : bool :=
+  match r with
+  | RJunk => true
+  | _ => match req_flat r with
+         | Some c => b_flat o && forallb (fun pw => optZ_eqb (look c (fst pw)) (snd pw)) (b_look o)
+         | None => negb (b_flat o)
+         end
+  end.
+
+(* an edit that succeeded in the model: what is needed to apply its backward request *)
+Record edone := { e_trace : trace; e_bwd : request; e_oldargs : list val; e_tags : list tagt }.
+
 Inductive want (A : Type) := WOk (a : A) | WErr (e : err).
 Arguments WOk {A}. Arguments WErr {A}.
 
@@ -28,7 +58,9 @@ Inductive step :=
 | StGen (seed : N) (c : list (list ckey * val)) (args : list val) (w : want (tobs * Z))
 | StAssess (c : list (list ckey * val)) (args : list val) (w : want (Z * val))
 | StAssessOwn (ti : nat) (w : want (Z * val))         (* assess(tr.get_choices(), tr.get_args()) *)
-| StProject (ti : nat) (s : sterm) (w : want Z).
+| StProject (ti : nat) (s : sterm) (w : want Z)
+| StEdit (ti : nat) (seed : N) (q : rterm) (args : list val) (tags : list tagt) (w : want (tobs * Z * bobs))
+| StBwd (ei : nat) (seed : N) (w : want (tobs * Z)).    (* apply the backward request of edit ei to its new trace, old arguments *)
 
 Definition res_ok {A B} (r : res A) (w : want B) (ok : A -> B -> bool) : bool :=
   match r, w with
@@ -37,35 +69,60 @@ Definition res_ok {A B} (r : res A) (w : want B) (ok : A -> B -> bool) : bool :=
   | _, _ => false
   end.
 
-Definition run_step (g : gf) (traces : list trace) (s : step) : bool * list trace :=
+Definition st := (list trace * list (option edone))%type.
+
+Definition run_step (g : gf) (sx : st) (s : step) : bool * st :=
+  let '(traces, edits) := sx in
   match s with
   | StSim seed args w =>
       let r := simulate g (key_of_seed seed) args in
-      (res_ok r w tobs_ok, match r with Ok t => traces ++ [t] | _ => traces end)
+      (res_ok r w tobs_ok, (match r with Ok t => traces ++ [t] | _ => traces end, edits))
   | StGen seed c args w =>
       let r := generate g (key_of_seed seed) (cbuild c) args in
       (res_ok r w (fun x o => tobs_ok (fst x) (fst o) && Z.eqb (snd x) (snd o)),
-       match r with Ok x => traces ++ [fst x] | _ => traces end)
-  | StAssess c args w =>
-      (res_ok (assess g (cbuild c) args) w (fun x o => Z.eqb (fst x) (fst o) && val_eqb (snd x) (snd o)), traces)
+       (match r with Ok x => traces ++ [fst x] | _ => traces end, edits))
   | StAssessOwn ti w =>
       match nth_error traces ti with
-      | Some t => (res_ok (assess g (t_choices t) (t_args t)) w (fun x o => Z.eqb (fst x) (fst o) && val_eqb (snd x) (snd o)), traces)
-      | None => (false, traces)
+      | Some t => (res_ok (assess g (t_choices t) (t_args t)) w (fun x o => Z.eqb (fst x) (fst o) && val_eqb (snd x) (snd o)), sx)
+      | None => (false, sx)
       end
+  | StAssess c args w =>
+      (res_ok (assess g (cbuild c) args) w (fun x o => Z.eqb (fst x) (fst o) && val_eqb (snd x) (snd o)), sx)
   | StProject ti s w =>
       match nth_error traces ti with
-      | Some t => (res_ok (project t (build s)) w Z.eqb, traces)
-      | None => (false, traces)
+      | Some t => (res_ok (project t (build s)) w Z.eqb, sx)
+      | None => (false, sx)
+      end
+  | StEdit ti seed q args tags w =>
+      match nth_error traces ti with
+      | Some t =>
+          let r := req_edit g (key_of_seed seed) t (rbuild q) args tags in
+          (res_ok r w (fun x o => let '(t', wt, b) := x in let '(ot, ow, ob) := o in
+                                  tobs_ok t' ot && Z.eqb wt ow && bobs_ok b ob),
+           match r with
+           | Ok (t', _, b) => (traces ++ [t'], edits ++ [Some {| e_trace := t'; e_bwd := b; e_oldargs := t_args t; e_tags := tags |}])
+           | Err _ => (traces, edits ++ [None])
+           end)
+      | None => (false, sx)
+      end
+  | StBwd ei seed w =>
+      match nth_error edits ei with
+      | Some (Some e) =>
+          match e_bwd e with
+          | RJunk => (true, sx)
+          | b => (res_ok (req_edit g (key_of_seed seed) (e_trace e) b (e_oldargs e) (e_tags e)) w
+                         (fun x o => tobs_ok (fst (fst x)) (fst o) && Z.eqb (snd (fst x)) (snd o)), sx)
+          end
+      | _ => (false, sx)
       end
   end.
 
 (* index of the first step on which model and implementation differ *)
-Fixpoint first_bad (g : gf) (traces : list trace) (ss : list step) (i : nat) : option nat :=
+Fixpoint first_bad (g : gf) (sx : st) (ss : list step) (i : nat) : option nat :=
   match ss with
   | [] => None
-  | s :: r => let '(ok, traces') := run_step g traces s in
-              if ok then first_bad g traces' r (S i) else Some i
+  | s :: r => let '(ok, sx') := run_step g sx s in
+              if ok then first_bad g sx' r (S i) else Some i
   end.
 
 Definition gcase := (gf * list step)%type.
@@ -73,7 +130,7 @@ Definition gcase := (gf * list step)%type.
 Fixpoint gmismatches_from (n : nat) (cs : list gcase) : list nat :=
   match cs with
   | [] => []
-  | (g, ss) :: r => match first_bad g [] ss 0 with
+  | (g, ss) :: r => match first_bad g ([], []) ss 0 with
                     | None => gmismatches_from (S n) r
                     | Some i => n :: i :: gmismatches_from (S n) r
                     end
